@@ -148,6 +148,26 @@ func main() {
 	// --- calculateAndCheckRuleHash: the stamp is written after the output hash was taken
 	cr := bs.Func("calculateAndCheckRuleHash")
 	out.Def("stampPhaseCalls", "List String", xlib.LeanStrList(names(calls(cr.Body, set("OutputHash", "writeRuleHash")))))
+	// declared hashes are verified BEFORE the record is written, and a mismatch returns the error at once (VerifyHashes)
+	out.Def("verifyThenStamp", "List String", xlib.LeanStrList(names(calls(cr.Body, set("OutputHash", "checkRuleHashes", "writeRuleHash", "Chmod")))))
+	verifyReturns := false
+	for _, st := range cr.Body.List {
+		is, ok := st.(*ast.IfStmt)
+		if !ok || is.Init == nil || !containsCall(is.Init, "checkRuleHashes") {
+			continue
+		}
+		ast.Inspect(is.Body, func(nd ast.Node) bool {
+			if inner, ok := nd.(*ast.IfStmt); ok && strings.Contains(bs.Src(inner.Cond), "VerifyHashes") {
+				for _, x := range inner.Body.List {
+					if r, ok := x.(*ast.ReturnStmt); ok && len(r.Results) == 2 && bs.Src(r.Results[1]) == "err" {
+						verifyReturns = true
+					}
+				}
+			}
+			return true
+		})
+	}
+	out.Def("verifyFailureReturnsError", "Bool", xlib.LeanBool(verifyReturns))
 
 	// --- moveOutputs / moveOutput
 	mos := bs.Func("moveOutputs")
